@@ -156,6 +156,12 @@ def _hs(rec, case):
         ok, R = guarded(rec, c, dict(sig0, route='represent_fine(lv)'), hs.represent_fine, lv=lv, truncate=False)
         if ok and R.shape == Rv.shape:
             rec.check_close('represent_fine', float(np.abs(R.toarray() - Rv).max()), 1e-11, dict(sig0, route='represent_fine(lv)'), c)
+        # the truncated basis of the virtual level lv (functions of levels <= lv, truncated against everything up to lv)
+        Rvt = _fine_rep(hs, True, upto=lv)
+        ok, R = guarded(rec, c, dict(sig0, route='represent_fine(lv, truncate=True)'), hs.represent_fine, lv=lv, truncate=True)
+        if ok:
+            if R.shape != Rvt.shape: rec.violation(dict(sig0, route='represent_fine(lv, truncate=True)', oracle='shape'), c, {'got': list(R.shape), 'want': list(Rvt.shape)})
+            else: rec.check_close('represent_fine', float(np.abs(R.toarray() - Rvt).max()), 1e-11, dict(sig0, route='represent_fine(lv, truncate=True)', below_finest=bool(lv < L - 1)), c)
         nlv = Rv.shape[0]
         rows = np.sort(rng.permutation(nlv)[:max(1, nlv // 3)])
         for restrict in (False, True):
@@ -211,6 +217,7 @@ def _hs(rec, case):
     desc2 = dict(desc); desc2.pop('hseed', None)
     fine_hs = hs.copy()
     rng2 = rng_for('C05h2', case['seed'], case['idx'])
+    hgen.poke(fine_hs, rng2, p=0.7)        # fill whatever the copy caches before it is refined further
     extra = []
     if rng2.random() < 0.35:
         # a patch wide enough to replace coarse functions, then all of its children (and possibly theirs): the fine space gets levels
@@ -226,6 +233,7 @@ def _hs(rec, case):
             for s in range(int(rng2.integers(2, 4))):
                 if not cur or lv >= maxlv - 1: break
                 fine_hs.refine({lv: set(cur)}); extra.append({int(lv): [list(x) for x in cur]})
+                hgen.poke(fine_hs, rng2)
                 parents = set(cur); lv += 1
                 cur = [c_ for c_ in sorted(map(tuple, fine_hs.active_cells(lv))) if tuple(ci // 2 for ci in c_) in parents] if lv < fine_hs.numlevels else []
     else:
@@ -233,6 +241,7 @@ def _hs(rec, case):
         marks = hgen.random_marks(fine_hs, rng2, style=str(rng2.choice(['random', 'corner', 'isolated', 'multilevel', 'drill'])), max_levels=5 if hs.dim < 3 else 3)
         if not marks: break
         fine_hs.refine({l: set(cs) for l, cs in marks.items()}); extra.append({int(l): [list(x) for x in cs] for l, cs in marks.items()})
+        hgen.poke(fine_hs, rng2)
     c2 = dict(c, further=extra)
     Lf = fine_hs.numlevels
     nLf = int(np.prod([kk.numdofs for kk in fine_hs.knotvectors(Lf - 1)]))
